@@ -60,9 +60,18 @@ Record interp : Type := {
   idiv0 : Z -> Z                                (* x div 0 on integers *)
 }.
 
+(* sorts that have values: positive bit-widths, component sorts inhabited *)
+Fixpoint sort_ok (t : ty) : Prop :=
+  match t with
+  | TBV w => (0 < w)%Z
+  | TArr i e => sort_ok i /\ sort_ok e
+  | TFun _ r => sort_ok r
+  | _ => True
+  end.
+
 Definition wf_interp (I : interp) : Prop :=
-  (forall n t, match t with TFun _ _ => True | _ => has_ty (isym I n t) t end) /\
-  (forall n ps r args, has_ty (ifun I n (TFun ps r) args) r).
+  (forall n t, sort_ok t -> match t with TFun _ _ => True | _ => has_ty (isym I n t) t end) /\
+  (forall n ps r args, sort_ok r -> has_ty (ifun I n (TFun ps r) args) r).
 
 Definition bind1 (I : interp) (v : var) (x : value) : interp :=
   {| isym := fun n t => if String.eqb n (fst v) && ty_eqb t (snd v) then x else isym I n t;
@@ -228,7 +237,7 @@ Definition nat_of_real (e : R) : option nat :=
   let n := Z.to_nat (up e - 1) in if Req_EM_T (INR n) e then Some n else None.
 Definition vpow (a b : value) : value :=
   match a, b with
-  | VInt x, VInt y => if (0 <=? y)%Z then VInt (x ^ y) else VBool false
+  | VInt x, VInt y => if (0 <=? y)%Z then VReal (IZR (x ^ y)) else VBool false   (* pySMT types Pow as Real *)
   | VReal x, VReal y => match nat_of_real y with Some n => VReal (x ^ n) | None => VBool false end
   | _, _ => VBool false
   end.
